@@ -30,6 +30,7 @@ import DSymVerif.Proofs.Delaney3dOrders
 import DSymVerif.Proofs.Delaney3dSelect
 import DSymVerif.Proofs.Delaney3dOriented
 import DSymVerif.Proofs.Delaney3dHolonomy
+import DSymVerif.Proofs.Delaney3dBranch
 import DSymVerif.Props.C05
 import DSymVerif.Props.C09
 import DSymVerif.Props.C11
@@ -245,26 +246,10 @@ example : flattensAll 1 z3Table [([1], 3), ([1, 1, 1], 1)] = .ok true := by deci
 /-! ### 4. the tables of the pipeline are valid permutation representations
 
 `GroupOK fg` (Proofs/Delaney3dPipeline.lean) collects what is assumed of the presentation handed
-to `construct_candidates`: relators and cone words over the letters `±1..±n`, and the node budget
-of the model of `coset_tables` exhausting the search tree (hypothesis of C12's theorems).  The
-first two are decidable and evaluated by the driver on every explored case; they are not proved
-for the output of `fundamental_group`. -/
-
-/-- the decidable part of `GroupOK`, as the driver evaluates it on every explored case
-    (`SpecC15.groupOkB`), is sound -/
-theorem groupOkB_sound (n : Nat) (relators : List (List Int)) (cones : List (List Int × Nat))
-    (h : SpecC15.groupOkB n relators cones = true) :
-    (∀ w ∈ relators, ∀ x ∈ w, x ∈ Cosets.allGensOf n) ∧
-    (∀ c ∈ cones, ∀ x ∈ c.1, x ∈ Cosets.allGensOf n) := by
-  unfold SpecC15.groupOkB at h
-  simp only [Bool.and_eq_true, List.all_eq_true] at h
-  have hlet : ∀ x : Int, SpecC15.letterInRange n x = true → x ∈ Cosets.allGensOf n := by
-    intro x hx
-    unfold SpecC15.letterInRange at hx
-    simp only [Bool.or_eq_true, Bool.and_eq_true, decide_eq_true_eq] at hx
-    rw [LowIndexP.mem_allGensOf]
-    exact hx
-  exact ⟨fun w hw x hx => hlet x (h.1 w hw x hx), fun c hc x hx => hlet x (h.2 c hc x hx)⟩
+to `construct_candidates`: relators and cone words over the letters `±1..±n` — proved for every
+value the model of `fundamental_group` returns (C09 `fundamentalGroup_letters`,
+`groupOK_of_fundamentalGroup`) — and the node budget of the model of `coset_tables` exhausting
+the search tree (`FuelOK`, the hypothesis of C12's theorems; the only assumption left in §5–§7). -/
 
 /-- **candidates_valid.**  Every table `construct_candidates` files under any point-group name —
     core tables of the tables of index ≤ 4 (C12 `extract_valid`, C13 `core_spec`) and
@@ -312,8 +297,8 @@ theorem core_type_total (fg : FG.FundGroup) (hg : GroupOK fg) (cts : List Tab)
 /-! ### 5. a returned pseudo-toroidal cover is a covering -/
 
 /-- **ptc_result_is_cover.**  For every input with valid tables: whenever the model of
-    `pseudo_toroidal_cover` returns `Some(cov)` (and the presentation of the oriented cover is
-    `GroupOK`), then with `oc` the oriented cover of the input (itself oriented, 3-dimensional,
+    `pseudo_toroidal_cover` returns `Some(cov)` (and the node budget of the `coset_tables` model suffices:
+    `FuelOK`), then with `oc` the oriented cover of the input (itself oriented, 3-dimensional,
     1 or 2 sheets) and `t` the selected candidate table — a valid table of the group —
     `cov = cover_for_table(oc, t, edge_to_word)` has `rows(t) · |oc|` chambers, dimension 3 and
     valid tables (in particular it is complete and every operation is an involution), the
@@ -323,7 +308,7 @@ theorem core_type_total (fg : FG.FundGroup) (hg : GroupOK fg) (cts : List Tab)
     inverse-consistent (§4), and the two sides of every facet of `oc` carry mutually inverse edge
     words (C09 `edge_words_inverse`; `oc` has no mirrors: C05 `oriented_cover_oriented`). -/
 theorem ptc_result_is_cover (s cov : DSymData) (hs : ValidTables s) (hsz : 1 ≤ s.size)
-    (hG : ∀ oc fg, orientedCover s = .ok oc → FG.fundamentalGroup oc = .ok fg → GroupOK fg)
+    (hF : ∀ oc fg, orientedCover s = .ok oc → FG.fundamentalGroup oc = .ok fg → FuelOK fg)
     (h : pseudoToroidalCover s = .ok (some cov)) :
     ∃ (oc : DSymData) (fg : FG.FundGroup) (t : Tab),
       orientedCover s = .ok oc ∧ ValidTables oc ∧ oc.view.isOriented = true ∧ oc.dim = 3 ∧
@@ -372,7 +357,7 @@ theorem ptc_result_is_cover (s cov : DSymData) (hs : ValidTables s) (hsz : 1 ≤
       subst he
       exact ⟨hcv, fun i e hi he1 he2 => hproj i e hi he1 (by omega)⟩
   obtain ⟨hvoc, hprojoc⟩ := hboth
-  have hG' := hG oc fg hoc hfg
+  have hG' := groupOK_of_fundamentalGroup hfg (hF oc fg hoc hfg)
   -- the selected table is valid
   obtain ⟨e, he, hets⟩ := candGet_mem hget
   have hvt : SpecC11.validTable t fg.genToEdge.length fg.relators [] = true :=
@@ -411,13 +396,136 @@ theorem ptc_result_is_cover (s cov : DSymData) (hs : ValidTables s) (hsz : 1 ≤
     would project to a loop of the oriented cover) and it is weakly oriented (the proper
     2-colouring of the oriented cover pulls back along the projection). -/
 theorem ptc_result_is_oriented (s cov : DSymData) (hs : ValidTables s) (hsz : 1 ≤ s.size)
-    (hG : ∀ oc fg, orientedCover s = .ok oc → FG.fundamentalGroup oc = .ok fg → GroupOK fg)
+    (hF : ∀ oc fg, orientedCover s = .ok oc → FG.fundamentalGroup oc = .ok fg → FuelOK fg)
     (h : pseudoToroidalCover s = .ok (some cov)) : cov.view.isOriented = true := by
   obtain ⟨oc, _, _, _, hvoc, hori, hd3, hocsize, _, _, _, _, _, hcd, hvc, hproj, _⟩ :=
-    ptc_result_is_cover s cov hs hsz hG h
+    ptc_result_is_cover s cov hs hsz hF h
   have hocsz : 1 ≤ oc.size := by rw [hocsize]; split <;> omega
   exact cover_of_oriented_is_oriented hvoc hvc hori hocsz (by rw [hcd, hd3])
     (fun i d hi h1 h2 => hproj i d (by rw [← hd3]; exact hi) h1 h2)
+
+/-- **flattens_branchfree** (○ of DESIGN §6 C15, now proved).  Let `oc` be a valid symbol
+    (`ValidSym`: valid tables, far operations commuting) all of whose degrees are positive, `fg`
+    the value of `fundamental_group(oc)`, and `t` a valid, regular table (what every candidate of
+    `construct_candidates` is: `constructCandidates_regular`) that flattens all cones
+    (`flattens_all(t, fg.cones)`, what both loops test before filing a table).  Then
+    `cov = cover_for_table(oc, t, edge_to_word)` has **branching number 1 on every adjacent
+    2-orbit**: the orbit of every chamber `(sheet, b)` under `op_{i+1} ∘ op_i` has exactly the
+    length `r(b)·v(b) = m(b)` of the degree of the base.  (Proof sketch in
+    Proofs/Delaney3dBranch.lean: C05 monodromy covers, regularity = normality of the candidate
+    subgroup, C09 orbit-word rotation lemmas, conjugation invariance of the order, `degree_spec`.) -/
+theorem flattens_branchfree (oc cov : DSymData) (fg : FG.FundGroup) (t : Tab)
+    (hs : ValidSym oc) (hsz : 1 ≤ oc.size) (hdim : 1 ≤ oc.dim)
+    (hmpos : ∀ i b, i < oc.dim → 1 ≤ b → b ≤ oc.size → 1 ≤ oc.mVal i b)
+    (hfg : FG.fundamentalGroup oc = .ok fg)
+    (hvt : SpecC11.validTable t fg.genToEdge.length fg.relators [] = true)
+    (hreg : Regular t fg.genToEdge.length fg.relators)
+    (hflat : flattensAll fg.genToEdge.length t fg.cones = .ok true)
+    (hcov : Covers.coverForTable oc (tableData (tbl fg.genToEdge.length t)) fg.edgeToWord = .ok cov) :
+    ∀ i d, i < oc.dim → 1 ≤ d → d ≤ cov.size → cov.vPartial i (i + 1) d = .ok (some 1) := by
+  have hV : CosetP.Valid t fg.nrGenerators fg.relators [] := CosetP.valid_of_validTable hvt
+  have hσ := sheetMap_agrees hs hdim hfg hV
+  have hcompat := CoversP.agrees_compat hσ hs.set
+  obtain ⟨c, hc, hsize, _, _, hop, hdeg⟩ := cover_ok oc hs.toValidTables hsz hdim hV.pos hcompat
+  have hdef : Covers.allTracesDefined oc (tableData (tbl fg.genToEdge.length t)) fg.edgeToWord = true := by
+    have h := hcov
+    unfold Covers.coverForTable at h
+    split at h
+    · assumption
+    · cases h
+  have hce : cov = c := by
+    have h := hcov
+    rw [Covers.coverForTable_eq_cover hdef, tableData_len] at h
+    have hc' : cover oc t.size (Covers.sheetMap (tableData (tbl fg.genToEdge.length t)) fg.edgeToWord) = .ok c := hc
+    rw [hc'] at h
+    exact (Outcome.ok.inj h).symm
+  subst hce
+  intro i d hi hd1 hd2
+  rw [hsize] at hd2
+  obtain ⟨r, hr, _, hv, _⟩ := hdeg i d hi hd1 hd2
+  have hp := cproj_range (d := d) hsz
+  have hm := CoversP.mVal_eq_orb hs hi hp.1 hp.2
+  have hpos := hmpos i _ hi hp.1 hp.2
+  have hleast := cover_leastPeriod_flat hs hdim hfg hV hsz hreg hflat (c := cov.dset) hop hi hd1 hd2
+    (by rw [← hm]; exact hpos)
+  rw [← hm] at hleast
+  have : r = oc.mVal i (cproj oc.size d) := hr.unique hleast
+  rw [hv, this, Nat.div_self hpos]
+
+/-- the degrees of the oriented cover of a complete valid symbol are positive -/
+theorem orientedCover_mVal_pos (s oc : DSymData) (hs : ValidSym s) (hsz : 1 ≤ s.size) (hdim : 1 ≤ s.dim)
+    (hcompl : s.isCompletePartial = true) (hoc : orientedCover s = .ok oc) :
+    ∀ i b, i < oc.dim → 1 ≤ b → b ≤ oc.size → 1 ≤ oc.mVal i b := by
+  cases ho : s.view.isOriented with
+  | true =>
+    have := (C05.oriented_cover_covering s hs.toValidTables hsz hdim).2.1 ho
+    rw [hoc] at this
+    have he : oc = s := Outcome.ok.inj this
+    subst he
+    intro i b hi h1 h2
+    exact CoversP.mVal_pos hs.toValidTables hcompl hi h1 h2
+  | false =>
+    obtain ⟨c, hc, hcs, hcd, hvc, _, hdeg, _⟩ := D2.oriCover_pkg hs hsz hdim ho
+    rw [hoc] at hc
+    have he : oc = c := Outcome.ok.inj hc
+    subst he
+    intro i b hi h1 h2
+    have hi' : i < s.dim := by rw [← hcd]; exact hi
+    have hm := (hdeg i b hi' h1 (by rw [← hcs]; exact h2)).2.2
+    have hp := cproj_range (d := b) hsz
+    rw [hvc.toValidTables.mPartial_adj hi h1 h2, hs.toValidTables.mPartial_adj hi' hp.1 hp.2] at hm
+    have : oc.mVal i b = s.mVal i (cproj s.size b) := Option.some.inj (Outcome.ok.inj hm)
+    rw [this]
+    exact CoversP.mVal_pos hs.toValidTables hcompl hi' hp.1 hp.2
+
+/-- **ptc_result_is_branchfree.**  For every valid symbol (`ValidSym`): a cover returned by the
+    model of `pseudo_toroidal_cover` has branching number 1 on every adjacent 2-orbit
+    (`flattens_branchfree` applied to the selected candidate, which is valid, regular and flattens
+    all cones).  Moreover (C05 monodromy covers) it is a valid symbol again, complete, has at every
+    chamber and for ALL index pairs the degree `m_ij` of its projection to the oriented cover, and
+    is connected if the oriented cover is. -/
+theorem ptc_result_is_branchfree (s cov : DSymData) (hs : ValidSym s) (hsz : 1 ≤ s.size)
+    (hF : ∀ oc fg, orientedCover s = .ok oc → FG.fundamentalGroup oc = .ok fg → FuelOK fg)
+    (h : pseudoToroidalCover s = .ok (some cov)) :
+    (∀ i d, i < 3 → 1 ≤ d → d ≤ cov.size → cov.vPartial i (i + 1) d = .ok (some 1)) ∧
+    ValidSym cov ∧ cov.isCompletePartial = true ∧
+    ∃ oc, orientedCover s = .ok oc ∧
+      (∀ i j d, i ≤ 3 → j ≤ 3 → 1 ≤ d → d ≤ cov.size →
+        cov.mPartial i j d = oc.mPartial i j (cproj oc.size d)) ∧
+      (oc.view.isConnected = true → cov.view.isConnected = true) := by
+  obtain ⟨⟨oc, fg, cands, t, name, ts, dim3, hcompl, hoc, hfg, hcands, _, hget, hmem, _, hcov⟩⟩ := ptc_run s cov h
+  have hdim : 1 ≤ s.dim := by rw [dim3]; decide
+  have hsoc := orientedCover_validSym hs hsz hdim hoc
+  obtain ⟨oc', hoc', _, hocdim, hocsize⟩ := C05.oriented_cover_oriented s hs.toValidTables hsz hdim
+  have hoceq : oc = oc' := by
+    have := hoc
+    rw [hoc'] at this
+    exact (Outcome.ok.inj this).symm
+  subst hoceq
+  have hocsz : 1 ≤ oc.size := by rw [hocsize]; split <;> omega
+  have hd3 : oc.dim = 3 := by rw [hocdim, dim3]
+  have hocd : 1 ≤ oc.dim := by rw [hd3]; decide
+  have hG := groupOK_of_fundamentalGroup hfg (hF oc fg hoc hfg)
+  obtain ⟨e, he, hets⟩ := candGet_mem hget
+  have hQ := constructCandidates_regular fg hG cands hcands e he t (by rw [hets]; exact hmem)
+  have hflat := constructCandidates_flat fg cands hcands e he t (by rw [hets]; exact hmem)
+  have hmpos := orientedCover_mVal_pos s oc hs hsz hdim hcompl hoc
+  have hV : CosetP.Valid t fg.nrGenerators fg.relators [] := CosetP.valid_of_validTable hQ.1
+  obtain ⟨hsize, hcd, hvc, _, hdeg, hcomp, hconn⟩ := coverForTable_mono hsoc hocd hfg hV hocsz hcov
+  have hoccompl : oc.isCompletePartial = true := by
+    apply D2.complete_of_vN hsoc.toValidTables
+    intro i d hi h1 h2
+    have := hmpos i d hi h1 h2
+    unfold DSymData.mVal at this
+    intro h0
+    rw [h0, Nat.mul_zero] at this
+    omega
+  refine ⟨?_, hvc, hcomp hoccompl, oc, hoc, ?_, hconn⟩
+  · intro i d hi h1 h2
+    exact flattens_branchfree oc cov fg t hsoc hocsz hocd hmpos hfg hQ.1 hQ.2 hflat hcov i d
+      (by rw [hd3]; exact hi) h1 h2
+  · intro i j d hi hj h1 h2
+    exact hdeg i j d (by rw [hd3]; exact hi) (by rw [hd3]; exact hj) h1 (by rw [← hsize]; exact h2)
 
 /-! ### 6. the selected subgroup abelianises to Z³ -/
 
@@ -435,7 +543,7 @@ theorem ptc_result_is_oriented (s cov : DSymData) (hs : ValidTables s) (hsz : 1 
     i.e. `K` abelianises to Z³.  (That `π₁(cov) ≅ K`, the covering-space correspondence, is not
     proved; the Spec computes H₁ of `cov` from its own textbook presentation on every case.) -/
 theorem ptc_selected_subgroup_is_Z3_abelianised (s cov : DSymData) (hs : ValidTables s) (hsz : 1 ≤ s.size)
-    (hG : ∀ oc fg, orientedCover s = .ok oc → FG.fundamentalGroup oc = .ok fg → GroupOK fg)
+    (hF : ∀ oc fg, orientedCover s = .ok oc → FG.fundamentalGroup oc = .ok fg → FuelOK fg)
     (h : pseudoToroidalCover s = .ok (some cov)) :
     ∃ (oc : DSymData) (fg : FG.FundGroup) (t : Tab)
       (hv : SpecC11.validTable t fg.genToEdge.length fg.relators [] = true)
@@ -457,7 +565,7 @@ theorem ptc_selected_subgroup_is_Z3_abelianised (s cov : DSymData) (hs : ValidTa
       ((∀ w ∈ srels, ∀ g ∈ w, Inv.InRange gens.length g) →
         ((Inv.abelianInvariantsB gens.length srels).2 : Int) < Inv.isizeMax →
         SpecC14.expected gens.length srels = [0, 0, 0]) := by
-  obtain ⟨oc, fg, t, hoc, _, _, _, _, hfg, hvt, hinv, hcov, hsize, _⟩ := ptc_result_is_cover s cov hs hsz hG h
+  obtain ⟨oc, fg, t, hoc, _, _, _, _, hfg, hvt, hinv, hcov, hsize, _⟩ := ptc_result_is_cover s cov hs hsz hF h
   have hV := CosetP.valid_of_validTable hvt
   unfold stabilizerInvariants at hinv
   split at hinv
@@ -515,73 +623,11 @@ def SubgroupFacts (s cov : DSymData) : Prop :=
 
 /-- both, for every returned cover -/
 theorem ptc_certificate (s cov : DSymData) (hs : ValidTables s) (hsz : 1 ≤ s.size)
-    (hG : ∀ oc fg, orientedCover s = .ok oc → FG.fundamentalGroup oc = .ok fg → GroupOK fg)
+    (hF : ∀ oc fg, orientedCover s = .ok oc → FG.fundamentalGroup oc = .ok fg → FuelOK fg)
     (h : pseudoToroidalCover s = .ok (some cov)) : CoverFacts s cov ∧ SubgroupFacts s cov :=
-  ⟨ptc_result_is_cover s cov hs hsz hG h, ptc_selected_subgroup_is_Z3_abelianised s cov hs hsz hG h⟩
+  ⟨ptc_result_is_cover s cov hs hsz hF h, ptc_selected_subgroup_is_Z3_abelianised s cov hs hsz hF h⟩
 
 /-! ### open (not theorems): the statements, for the record -/
-
-/-- the holonomy of every 2-orbit of the base has, at every sheet, exactly the order that makes
-    the cover unbranched: for the adjacent pair `(i, i+1)`, the sheet `k` and the base chamber `b`,
-    the least `t ≥ 1` at which the walk `(op_{i+1} ∘ op_i)^t` returns to `b` **and** the sheet map
-    applied along it (`hol`, Proofs/Delaney3dHolonomy.lean) returns to `k` is the degree
-    `m = r·v` of the base at `b` -/
-def HolonomyOrder (oc : DSymData) (n : Nat) (σ : Nat → Nat → Nat → Nat) : Prop :=
-  ∀ i k b, i < oc.dim → k < n → 1 ≤ b → b ≤ oc.size →
-    1 ≤ oc.mVal i b ∧
-    (IsPeriod oc.dset i (i + 1) (oc.mVal i b) b ∧ hol oc.dset σ i (i + 1) (oc.mVal i b) k b = k) ∧
-    ∀ t, 1 ≤ t → t < oc.mVal i b →
-      ¬ (IsPeriod oc.dset i (i + 1) t b ∧ hol oc.dset σ i (i + 1) t k b = k)
-
-/-- **flattens_branchfree_partial** (the cover side of ○ `flattens_branchfree`).  For the cover
-    `cov = cover_for_table(oc, t, edge_to_word)` of an oriented symbol with valid tables by a valid
-    table: walking `t` rounds of `op_{i+1} ∘ op_i` from the chamber `(k, b)` of the cover leads to
-    `(hol t k b, (op_{i+1} ∘ op_i)^t b)` (`cover_iter`), so the orbit of `(k, b)` has length
-    `r_base(b) · (order of the orbit's holonomy at sheet k)` and branching number
-    `m_base(b) / that length`.  Hence if the holonomy has `HolonomyOrder`, **every adjacent
-    branching number of the cover is 1**.
-    Not proved: that `flattens_all(t, cones)` implies `HolonomyOrder` — `flattens_all` tests the
-    order at row 0 only and on `relator_representative`s of the orbit words of the orbit
-    representatives only; the step needs normality of the candidate subgroup (order independent
-    of the row), invariance of the order under conjugation and inversion, and the relation
-    between the orbit words of all chambers of one orbit.  The Spec clause `cover-is-branch-free`
-    decides the conclusion on every explored case. -/
-theorem flattens_branchfree_partial (oc cov : DSymData) (fg : FG.FundGroup) (t : Tab)
-    (hvoc : ValidTables oc) (hori : oc.view.isOriented = true) (hsz : 1 ≤ oc.size) (hdim : 1 ≤ oc.dim)
-    (hfg : FG.fundamentalGroup oc = .ok fg)
-    (hvt : SpecC11.validTable t fg.genToEdge.length fg.relators [] = true)
-    (hcov : Covers.coverForTable oc (tableData (tbl fg.genToEdge.length t)) fg.edgeToWord = .ok cov)
-    (hH : HolonomyOrder oc t.size (Covers.sheetMap (tableData (tbl fg.genToEdge.length t)) fg.edgeToWord)) :
-    ∀ i d, i < oc.dim → 1 ≤ d → d ≤ cov.size → cov.vPartial i (i + 1) d = .ok (some 1) := by
-  have hV := CosetP.valid_of_validTable hvt
-  have hdef : Covers.allTracesDefined oc (tableData (tbl fg.genToEdge.length t)) fg.edgeToWord = true := by
-    have hc := hcov
-    unfold Covers.coverForTable at hc
-    split at hc
-    · assumption
-    · cases hc
-  have hσ := Covers.sheetMap_compat oc hvoc.set (tableData (tbl fg.genToEdge.length t)) fg.edgeToWord
-    (tableData_invConsistent hV) (edgeWordsOk_of_oriented hvoc hori hfg _) hdef
-  rw [tableData_len] at hσ
-  have hc : cover oc t.size (Covers.sheetMap (tableData (tbl fg.genToEdge.length t)) fg.edgeToWord) = .ok cov := by
-    rw [← hcov, Covers.coverForTable_eq_cover hdef, tableData_len]
-  obtain ⟨c', hc', hsize, _⟩ := cover_ok oc hvoc hsz hdim (show 1 ≤ t.size from hV.pos) hσ
-  rw [hc] at hc'
-  cases hc'
-  intro i d hi hd1 hd2
-  rw [hsize] at hd2
-  have hp := cproj_range (d := d) hsz
-  have hk := csheet_lt hsz hd1 hd2
-  obtain ⟨hm, hret, hmin⟩ := hH i (csheet oc.size d) (cproj oc.size d) hi hk hp.1 hp.2
-  exact cover_branch_one oc hvoc hsz hdim (show 1 ≤ t.size from hV.pos) hσ cov hc hi hd1 hd2 hm hret hmin
-
-/-- ○ `flattens_branchfree`, the open half: a candidate that flattens all cones has
-    `HolonomyOrder` (see `flattens_branchfree_partial`) -/
-def flattens_holonomy_statement : Prop :=
-  ∀ (oc : DSymData) (fg : FG.FundGroup) (cands : Candidates) (e : String × List Tab) (t : Tab),
-    ValidTables oc → oc.view.isOriented = true → FG.fundamentalGroup oc = .ok fg → GroupOK fg →
-    constructCandidates fg = .ok cands → e ∈ cands → t ∈ e.2 →
-    HolonomyOrder oc t.size (Covers.sheetMap (tableData (tbl fg.genToEdge.length t)) fg.edgeToWord)
 
 /-- ◐ existence and torus property (Spec clauses on every explored input):
     for every euclidean 2D symbol `toroidal_cover` returns; every returned (pseudo-)toroidal
